@@ -653,6 +653,9 @@ func (m *DenseReal64Matrix) Import(filename string) error {
       continue
     }
     fields := strings.Fields(l)
+    if len(fields) == 0 {
+      continue
+    }
     if cols == 0 {
       cols = len(fields)
     }
